@@ -70,6 +70,15 @@ def run_case(case):
     mon.run(numbering)
     if mon.violations:
         return mon.result(summary={"kind": "sim", "triggers": trig, "add_history": case["add_history"]})
+    from vmon.simkit import decoy
+
+    def twin():
+        em2 = event.EventMap()
+        for i, t in enumerate(trig):
+            em2.add(event.Source(trigger=t, path=(f"t{i}",)))
+        return event.Monitor(em2, trigger=case["mon_trigger"])
+
+    decoy(rng, twin)
     dut = event.Monitor(emap, trigger=case["mon_trigger"])
     # bit k <-> source with index k
     by_bit = [srcs[s] for s in first]
